@@ -93,6 +93,25 @@ def run_history(rootname, hist, warm=False):
     return canon, viols, digest([obs, live]), info
 
 
+def _spec_uncached():
+    out = {}
+    for name, r in ROOTS.items():
+        acc = []
+
+        def rec(prefix, d):
+            for n, sd in d.items():
+                for cn, cd in sd.get("cells", {}).items():
+                    if isinstance(cd, dict) and cd.get("cached") is False:
+                        acc.append((prefix + n, cn))
+                rec(prefix + n + ".", sd.get("spaces", {}))
+        rec("", r["spec"]["spaces"])
+        out[name] = acc
+    return out
+
+
+SPEC_UNCACHED = _spec_uncached()
+
+
 def enabled_for(rootname):
     r = ROOTS[rootname]
     alphabet = r["edits"] + r["evals"]
@@ -100,7 +119,7 @@ def enabled_for(rootname):
     def enabled(hist, info):
         last = hist[-1] if hist else None
         from mxmc.evalfam import prune_noop_flags
-        return [op for op in prune_noop_flags(hist, alphabet) if op != last]
+        return [op for op in prune_noop_flags(hist, alphabet, SPEC_UNCACHED.get(rootname, ())) if op != last]
     return enabled
 
 
